@@ -14,7 +14,7 @@ LEVEL = 'fault_enumeration'
 RUNS = {'quick': 361 * 6, 'thorough': 361 * 60}
 CHUNK = 20
 RECHECK_MOD = 59
-PROBES = ['negative_return_words', 'path_outside_ascii', 'small_word_windows', 'host_environment_swapped', 'errno_sweep', 'signal_sweep', 'family_sweep', 'kind_sweep', 'sockopt_levels', 'pipe_variant', 'large_error_word',
+PROBES = ['rendered_in_an_interpreter_with_another_hash_seed', 'negative_return_words', 'path_outside_ascii', 'small_word_windows', 'host_environment_swapped', 'errno_sweep', 'signal_sweep', 'family_sweep', 'kind_sweep', 'sockopt_levels', 'pipe_variant', 'large_error_word',
           'out_of_domain_on_some_host', 'spot_checked', 'formatted_traces_path']
 RULE = ('one run = one BSD decoder (run index mod number of BSD decoders) x 24 error words drawn from 0..260 and a few huge values '
         '(all of 0..127 for every 12th run), plus full sweeps of signals 0..40, address families 0..45, socket kinds 0..8 and option '
@@ -34,6 +34,7 @@ def generate(rng, index, tier):
     errs = sorted(set([0] + [rng.randrange(1, 261) for _ in range(20)] + [rng.pick([35, 11, 45, 60, 102, 106, 107, 131, 255]),
                                                                               rng.pick([1 << 31, 1 << 32, (1 << 64) - 1, 4096])]))
     errs = sorted(set(errs) | {rng.pick([0x100, 0x200, 0x300, 0x400, 0x8000, 0x10000]) | rng.randrange(0, 107) for _ in range(4)})
+    errs = sorted(set(errs) | {11, 35, 45, 102})       # the numbers whose names are aliases of one another on some hosts but not on Darwin
     if index % 12 == 0:
         errs = sorted(set(errs) | set(range(0, 128)))
     return {'decoder': name, 'errs': errs, 'arg_seed': rng.randrange(1 << 30), 'formatted': index % 9 == 0, 'small': 24, 'env': index % 7 == 1}
@@ -107,6 +108,21 @@ def _events(scn):
                 s = list(base_s)
                 s[1], s[2] = level, opt
                 window(s, [0, 0, 0, 0], 'level=%#x opt=%#x' % (level, opt), 'level', level)
+    return out
+
+
+def render(scn, limit=120):
+    """The rendered text of the scenario's first `limit` windows on the interpreter's own host: a pure function of the dump -
+    also of the interpreter's hash seed (run in a fresh interpreter with another PYTHONHASHSEED by execute)."""
+    table = tool.codes()
+    out = []
+    for label, kind, num, recs in _events(scn)[:limit]:
+        parser = tool.tp_mod.TracesParser(table, {}, {})
+        try:
+            texts = [str(x) for x in parser.feed_generator(worlds.kevents_of(recs))]
+            out.append(texts[-1] if texts else None)
+        except Exception as e:
+            out.append('raised ' + type(e).__name__)
     return out
 
 
@@ -229,6 +245,31 @@ def execute(scn):
         if len({tuple(v) for v in outs.values()}) > 1:
             viols.append({'tag': 'host-dependent-text', 'sig': 'formatted_traces', 'detail': repr(outs)[:600]})
     if scn.get('env'):
+        # another interpreter: the same windows rendered in a fresh process whose string hashing is seeded differently (sets and
+        # dicts keyed by names iterate in another order there) must read the same
+        import json
+        import os
+        import subprocess
+        import sys
+        bump('probe:rendered_in_an_interpreter_with_another_hash_seed')
+        env_ = dict(os.environ)
+        env_['PYTHONHASHSEED'] = str(1 + scn['arg_seed'] % 1000)
+        code_ = ("import sys, json; sys.path.insert(0, %r); from simkd.props import c18; "
+                 "print(json.dumps(c18.render(json.load(sys.stdin))))" % os.path.dirname(os.path.dirname(os.path.dirname(os.path.abspath(__file__)))))
+        try:
+            pr_ = subprocess.run([sys.executable, '-c', code_], input=json.dumps(scn), capture_output=True, text=True, timeout=120, env=env_)
+            other = json.loads(pr_.stdout) if pr_.returncode == 0 else None
+        except Exception:
+            other = None
+        if other is not None:
+            here = render(scn)
+            for j_, (a_, b_) in enumerate(zip(here, other)):
+                if a_ != b_:
+                    viols.append({'tag': 'host-dependent-text', 'sig': 'interpreter-hash-seed',
+                                  'detail': '%s window %d: this interpreter renders %r, one started with PYTHONHASHSEED=%s renders %r' % (name, j_, a_, env_['PYTHONHASHSEED'], b_)})
+                    break
+        else:
+            bump('hash_seed_subprocess_failed')
         # the rest of the host: time zone, and a system-wide trace.codes that only some hosts ship.  A v3 dump with one log
         # record, the bundled code table as the tool loads it, and the event listing must come out the same everywhere.
         bump('probe:host_environment_swapped')
